@@ -20,6 +20,18 @@ CHECKS = {
  "C18": ("accumulate_spec (induction over value lists, uint32 wrap explicit), widen16/event/csd lemmas for all source bit patterns, refutation witnesses for the three recorded defects; the extracted spec is evaluated on the real expandComponents and on files decoded one after another in one process",
          "Coq kernel + vm_compute; no axioms; hand-written model of the generated expandComponents bodies tied by correspondence through the hook and Decode; three known findings (generated code pinned by goldens / package-level accumulators)",
          "Rocq proof (induction, finite sweeps lifted by lemma, refutation witnesses) with differential correspondence"),
+ "C02": ("absent_fields_invalid proved from the profile soundness theorems; decode_denote over streams is PARTIAL: the extracted reference semantics (Spec/FitSyntax.v) is evaluated on what the real Decode returns for profile-driven well-formed streams (all field kinds x compatible definition types x sizes x byte orders), in lock step with the Coq model",
+         "Coq kernel + vm_compute; no axioms; hand-written decoder model tied by lock-step correspondence; partial: stream-level theorem not yet proved, the property is decided on generated inputs by the spec oracle",
+         "Rocq proof (partial) + extracted reference semantics as oracle + differential correspondence with the Coq decoder model"),
+ "C12": ("rollover rule, invariant lemmas, date_time/local_date_time lemmas proved for all values; stream-level theorem PARTIAL: extracted reference semantics evaluated on generated time sequences decoded by the real Decode in lock step with the model; two known findings replayed on every run",
+         "Coq kernel; no axioms; Go int32/uint32 masking modelled as mod 32; known findings local_sets_reference and ts_zero_no_reference",
+         "Rocq proof (arithmetic lemmas by lia) + extracted reference semantics as oracle + correspondence"),
+ "C13": ("slot-table theorems (latest definition wins, slots functionally independent, undefined local type is an error in every state, data record program parametric in its definition) proved; stream-level lifting PARTIAL and covered by reference semantics + metamorphic redefinition test on the implementation",
+         "Coq kernel + vm_compute; no axioms; hand-written decoder model tied by lock-step correspondence",
+         "Rocq proof (functional-update lemmas, program unfolding) + reference semantics oracle + metamorphic testing"),
+ "C16": ("finalization-only-adds-lists, sortedness/permutation and counting lemmas proved; opts_invisible PARTIAL: every stream decoded under all 8 option sets and compared; counts compared with the extracted reference semantics, bounded on part-way failure",
+         "Coq kernel; no axioms; hand-written decoder model tied by lock-step correspondence under all option sets",
+         "Rocq proof (Sorted/Permutation lemmas) + 8-way differential decoding + reference semantics oracle"),
 }
 
 def main():
